@@ -241,6 +241,16 @@ def check_selector(crate, out):
         lid = local_of(e)
         return lid if lid in operands else None
 
+    def is_factor(e):
+        """does the value derive from the base-unit factor (to_base_unit_representation) of a parameter — as opposed to
+        a key computed from the unit itself (names, prefixes, exponents), which is what a tie-break compares"""
+        via = set()
+        operand_prov(e, inits, operands, via=via)
+        return any(v.endswith("to_base_unit_representation") for v in via)
+
+    order_of = {id(n): i for i, n in enumerate(walk(fn["body"]))}
+    factor_cmp_pos, key_cmp = [], []  # positions of the factor comparisons; (position, node) of unit-key comparisons
+
     strict = {}  # param id -> True when a strictly-smaller test returns it
     tie_symmetric = False
     tie_positional = None
@@ -263,8 +273,12 @@ def check_selector(crate, out):
             c = peel(n["cond"])
             if c.get("k") == "Binary" and c.get("op") in ("<", "<=", ">", ">="):
                 lp, rp = prov(c["l"]), prov(c["r"])
-                if len(lp) == 1 and len(rp) == 1 and lp != rp:
+                if len(lp) == 1 and len(rp) == 1 and lp != rp and not (is_factor(c["l"]) or is_factor(c["r"])):
+                    # `else if self.key() <= other.key() { self } else { other }`: a comparison of the units themselves
+                    key_cmp.append((order_of[id(n)], n))
+                elif len(lp) == 1 and len(rp) == 1 and lp != rp:
                     n_cmp += 1
+                    factor_cmp_pos.append(order_of[id(n)])
                     l_id, r_id = next(iter(lp)), next(iter(rp))
                     small = l_id if c["op"] in ("<", "<=") else r_id
                     th = ret_param(n["then"])
@@ -325,7 +339,7 @@ def check_selector(crate, out):
         c = peel(n["cond"])
         strict_cmp = c.get("k") == "Binary" and c.get("op") in ("<", ">") and len(prov(c["l"])) == 1 and len(prov(c["r"])) == 1 and prov(c["l"]) != prov(c["r"])
         nonstrict_handled = c.get("k") == "Binary" and c.get("op") in ("<=", ">=") and len(prov(c["l"])) == 1 and len(prov(c["r"])) == 1
-        if strict_cmp or nonstrict_handled:
+        if strict_cmp or nonstrict_handled or any(n is kn for (_p, kn) in key_cmp):
             continue
         if len(prov(n["cond"])) < 2:
             continue
@@ -338,6 +352,13 @@ def check_selector(crate, out):
         out.violation("smaller_unit:selector", f, fn["line"], "the body does not select between the two parameters by comparing their base-unit factors")
         return
     out.ok("smaller_unit:selector", f, fn["line"], "returns the parameter whose base-unit factor is strictly smaller (one comparison over both factors)")
+    # a comparison of unit keys placed after the strict factor comparisons of an if-chain is reached exactly on a tie
+    for (pos, kn) in key_cmp:
+        th, el = ret_param(kn["then"]), (ret_param(kn["else"]) if kn.get("else") is not None else None)
+        if factor_cmp_pos and pos > max(factor_cmp_pos) and th is not None and el is not None and th != el:
+            tie_symmetric = True
+        elif th is not None and (not factor_cmp_pos or pos < max(factor_cmp_pos)):
+            tie_positional = tie_positional or (th, crate.loc(fn, kn)[1])
     if tie_positional is not None:
         out.violation("smaller_unit:tie", f, tie_positional[1], "when both units have the SAME base-unit factor (different units of equal size: kph vs km/h, Gy vs Sv, mHz vs mBq) smaller_unit returns `%s`, i.e. whichever operand is on that side: `a == b`, `a < b`, `a - b` then convert the other way round than `b == a`, `b > a`, `b - a`, and the rounding of the conversion makes the results differ" % operands[tie_positional[0]])
     elif tie_symmetric:
